@@ -191,6 +191,9 @@ macro_rules | `(tactic| quiet_known) => `(tactic| apply t2Start_quiet)
 theorem dcClosed_quiet (sid : Nat) : Quiet (dcClosed sid) := by unfold dcClosed; quiet_tac
 macro_rules | `(tactic| quiet_known) => `(tactic| apply dcClosed_quiet)
 
+theorem transmitReconfig_quiet : Quiet transmitReconfig := by unfold transmitReconfig; quiet_tac
+macro_rules | `(tactic| quiet_known) => `(tactic| apply transmitReconfig_quiet)
+
 theorem flushLoop_quiet (fuel : Nat) : Quiet (flushLoop fuel) := by
   induction fuel with
   | zero => unfold flushLoop; quiet_tac
@@ -199,9 +202,6 @@ macro_rules | `(tactic| quiet_known) => `(tactic| apply flushLoop_quiet)
 
 theorem flush_quiet : Quiet flush := by unfold flush; quiet_tac
 macro_rules | `(tactic| quiet_known) => `(tactic| apply flush_quiet)
-
-theorem transmitReconfig_quiet : Quiet transmitReconfig := by unfold transmitReconfig; quiet_tac
-macro_rules | `(tactic| quiet_known) => `(tactic| apply transmitReconfig_quiet)
 
 theorem dcClose_quiet (i : Nat) : Quiet (dcClose i) := by unfold dcClose; quiet_tac
 macro_rules | `(tactic| quiet_known) => `(tactic| apply dcClose_quiet)
